@@ -156,9 +156,12 @@ def r06_life(repo, sink):
     fcs = [c for c in calls(run.node, "_finalize_components")]
     fco = [c for c in calls(run.node, "_finalize_composition")]
     for lst, nm in ((fcs, "_finalize_components"), (fco, "_finalize_composition")):
-        sink.check(len(lst) == 1 and cfgr.postdominates(cfgr.node_of(lst[0]), loop) and not cfgr.in_loop(cfgr.node_of(lst[0])),
+        sink.check(len(lst) == 1 and cfgr.postdominates(cfgr.node_of(lst[0]), loop) and not cfgr.in_loop(cfgr.node_of(lst[0]))
+                   and cfgr.postdominates(cfgr.node_of(lst[0]), cfgr.entry),
                    "R06", f"run-ends-with:{nm}", run,
-                   ok=f"{nm} post-dominates the scheduling loop and runs once", bad=f"a normal exit of run() skips {nm} (or it runs repeatedly)")
+                   ok=f"{nm} lies on every normal path through run() and runs once",
+                   bad=f"a normal exit of run() skips {nm} (or it runs repeatedly): components and adapters stay unfinalized, e.g. for a "
+                       "composition without time components")
     # update: status checked after the step in run()
     ur = [c for c in calls(run.node, "_update_recursive")]
     if ur:
